@@ -5,6 +5,20 @@ HERE = os.path.dirname(os.path.abspath(__file__))
 ALL = ["C%02d" % i for i in range(1, 21)]
 
 CHECKS = {
+ "C13": dict(
+  engine="workcount",
+  technique="logical-work monitoring of complete real `lian run` executions over parameterised adversarial program families: recording wrappers plus sys.monitoring PY_START activation counters (frames, statement transfers, worklist pops, state-space / SFG / call-path sizes, constant-folding sizes), judged by committed polynomial envelopes, a growth-ratio test over n, a constant-folding size bound and a CPU-time watchdog with counter time series",
+  category="exploration",
+  text="34 families F(n) (recursion shapes, cyclic imports/objects, nested loops, 2^n / 3^n-path call graphs, n-way branches and value products, n fields/elements/aliases/parameters, inheritance chains, long flows, deep expressions, hostile constants; Python plus some JavaScript and Java), n swept (quick 3, 8-11 plus large sizes; thorough 1-16 plus large sizes), each with and without --enable-p2, full `run` with a parameter source and a call sink. Every deciding counter must stay below a*(n+1)^d (d <= 4, >= 10x head-room, committed constants), checked synchronously in the child, which the first crossing counter stops. No work counter may show three consecutive growth ratios >= 1.8 at n >= 8. No folded constant above 10^6 bits. No death by signal or resource exhaustion. A child at its CPU watchdog with growing counters is a violation; a watchdog without counter evidence is inconclusive. Floors: every deciding counter non-zero on >= 80% of the runs it applies to.",
+  note="'Terminates on every program' is an unbounded liveness claim no finite run decides; it is restated as bounded logical work on the generated families and says nothing about shapes outside them. Wall-clock time never decides. Envelopes were calibrated on the repaired tree (fix commits f017db7, 1686ffb, 2aa9ebd). Exceptions other than resource exhaustion are recorded, not judged (C03). A family whose file the frontend skips contributes no counters.",
+  design="DESIGN.md §C13, §3.2 item 4"),
+ "C15": dict(
+  engine="model-history",
+  technique="runtime reference-model monitor (dict id -> last saved content, canonical forms computed from the objects) over exhaustively enumerated and seeded random save/get/export/export_indexing/restore histories on the real Loader, with an independent pandas reader of index and bundle files and a fresh-loader restore after every history; write-fault injection; save recorder, icontract post-conditions on LRUCache/GeneralLoader and a default-vs-tight-configuration pair oracle inside real analyses",
+  category="exploration",
+  text="For each of 17 loader classes (33 instances): all id-symmetry-reduced histories of <= 3 operations (<= 4 thorough) over ids {1,2,3} x contents {A, B, empty} under 1-3 cache/bundle configurations, <= 4 (<= 5) on four representative families, plus random histories of 6-24 operations over the 36-point grid (item cache 1..3 x bundle cache 1..2 x MAX_ROWS 3..8); 32 in-memory map loaders through save/export/restore histories; one injected write fault (to_feather raising ENOSPC, or a directory at the target path) per write of two histories per class — a failure must reach the caller or be printed; 9 (49 thorough) real analyses (Python, JavaScript, Java; run/semantic; with/without --enable-p2) in which every saved item is compared between what save received, the live loader, a fresh restored loader and the files, and the same analysis under default and tight cache/bundle configuration must compute the same final contents. Exhaustive inside the bounds.",
+  note="Trusted: the canonical forms and content builders in lib/monitors/loader.py, pandas as independent reader, icontract. Numbers are compared by Python equality, missing cells None == NaN, State.value as text, reverse look-ups of map loaders not judged. Tight real runs keep SFG bundles in memory (compensation of the known SFG write failure; one run per tier uncompensated).",
+  design="DESIGN.md §C15"),
  "C03": dict(
   engine="runner",
   technique="structural checker I1-I6 over the GIR bundles read back after real `lang` runs on corpus, hand-written and seeded byte-mutated sources in 10 languages; per-file exception attribution by a wrapper around the per-file translation entry, confirmed by unwrapped forked runs and true CLI runs",
